@@ -13,7 +13,8 @@ DT_ATTR = ["TEXT", "JSON", "IMAGE", "TOOL_CALL", "ERROR", "STOP", "APPROVAL"]
 IL_ATTR = ["UNTRUSTED", "VALIDATED", "TRUSTED"]
 CAP_ATTR = ["READ_FS", "WRITE_FS", "NET", "EXEC_CODE", "MONEY", "EMAIL_SEND"]
 
-# WiringError messages of DiagramExecutor.execute -> codes (= Model.err_code)
+# WiringError messages of DiagramExecutor.execute -> kinds (= constructors of Model.err; used for the
+# input-distribution histogram and for messages only: the compared observation is the exception class)
 EXEC_MSG = [
     ("Unknown module in external inputs", 1), ("Unknown input port", 2),
     ("Input type mismatch", 3), ("Input integrity violation", 4),
@@ -111,9 +112,7 @@ class C16(Check):
             "scripted handlers (none / raise / dict of raw, correctly labelled or mislabelled TypedValues with missing or "
             "extra keys), output payloads depend on the delivered input payloads; external inputs raw / labelled / "
             "mislabelled / missing / on wired ports / for unknown modules or ports; enforce_static_checks both ways. "
-            "~71% mostly-valid (of which ~55% get 1-2 targeted mutations), ~23% malformed, ~6% valid diagrams with 1-2 input "
-            "ports rewired by appending to diagram.wires directly (correspondence of the per-wire runtime checks only; the "
-            "property monitor does not apply to them). Exhaustive: all 21x21 "
+            "~75% mostly-valid (of which ~55% get 1-2 targeted mutations), ~25% malformed. Exhaustive: all 21x21 "
             "(source port type, destination port type) connects, all 21x21 (declared output type, returned label) and all "
             "21x21 (declared input type, external label) pairs. non-trivial = at least one accepted wire or one handler "
             "invocation; distinct by case content")
@@ -132,9 +131,11 @@ class C16(Check):
     TRUSTED = ["modelled not verified: payloads are integers; handlers are deterministic functions of their input dict that do not "
                "mutate it and return a dict (or None) or raise; Python dict insertion order = list order; module and port names are "
                "modelled by their insertion index",
-               "wires are only created through WiringDiagram.connect (diagram.wires is not appended to directly); the model's "
-               "KeyError outcome for a wire naming a non-existent port is unreachable under that hypothesis and is not exercised",
-               "WiringError kinds are recognised by message prefix"]
+               "wires are only created through WiringDiagram.connect (diagram.wires is not appended to directly); under that "
+               "hypothesis the model's KeyError / per-wire 'Type mismatch' / 'Integrity violation' / 'Missing output' raises are "
+               "unreachable (first three: theorem c16_runtime_wire_checks_never_fire) and the correspondence never exercises them",
+               "compared observations use the exception class only (accepted / WiringError; report / WiringError / handler's own "
+               "exception / other); WiringError messages are read only for the input-distribution histogram"]
     ASSUMPTIONS = ["module names are unique (add_module enforces it) and each dict (ports, handler result, external inputs) has unique keys",
                    "handlers are pure: same inputs, same result; no mutation of the inputs dict or the diagram during execute"]
 
@@ -201,11 +202,15 @@ class C16(Check):
 
     def _rand_attempt(self, rng, mods):
         n = len(mods)
-        if rng.random() < 0.5:
-            # a type-compatible pair when one exists
+        k = rng.random()
+        if k < 0.7:
+            # a type-compatible pair when one exists (k < 0.45), or a pair with equal data types and
+            # any integrities (so that integrity is what decides)
             srcs = [(s, sp) for s in range(n) for sp in range(len(mods[s]["out"]))]
             dsts = [(d, dp) for d in range(n) for dp in range(len(mods[d]["in"]))]
-            ok = [(s, sp, d, dp) for (s, sp) in srcs for (d, dp) in dsts if flows(mods[s]["out"][sp], mods[d]["in"][dp])]
+            ok = [(s, sp, d, dp) for (s, sp) in srcs for (d, dp) in dsts
+                  if (flows(mods[s]["out"][sp], mods[d]["in"][dp]) if k < 0.45
+                      else mods[s]["out"][sp][0] == mods[d]["in"][dp][0])]
             if ok:
                 return list(rng.choice(ok))
         return [rng.randint(0, n), rng.randrange(4), rng.randint(0, n), rng.randrange(4)]
@@ -379,32 +384,13 @@ class C16(Check):
         rng.shuffle(ext)
         return {"mods": mods, "wires": wires, "ext": ext, "enforce": rng.random() < 0.7}
 
-    def _force_wires(self, rng, c):
-        """rewire 1-2 input ports of a valid case behind connect's back (existing modules and
-        destination ports; any source port incl. ill-typed and non-existent ones)"""
-        mods = c["mods"]
-        dsts = [(d, dp) for d in range(len(mods)) for dp in range(len(mods[d]["in"]))]
-        c["forced"] = []
-        for (d, dp) in rng.sample(dsts, min(len(dsts), rng.choice([1, 1, 2]))):
-            c["wires"] = [w for w in c["wires"] if (w[2], w[3]) != (d, dp)]
-            for e in c["ext"]:
-                if e[0] == d:
-                    e[1][:] = [it for it in e[1] if it[0] != dp]
-            s = rng.randrange(len(mods))
-            c["forced"].append([s, rng.randrange(len(mods[s]["out"]) + 1), d, dp])
-
     def gen_cases(self, rng, n):
         muts = [self._mut_cycle, self._mut_cycle, self._mut_selfloop, self._mut_fanin, self._mut_drop_handler, self._mut_mislabel,
                 self._mut_mislabel, self._mut_keys, self._mut_raise, self._mut_drop_ext, self._mut_ext_mislabel,
                 self._mut_ext_on_wired, self._mut_ext_unknown]
         out = []
         for _ in range(n):
-            k0 = rng.random()
-            if k0 < 0.06:
-                c = self._gen_valid(rng)
-                self._force_wires(rng, c)
-                c["tags"] = ["stream:forced-wires"]
-            elif k0 < 0.29:
+            if rng.random() < 0.25:
                 c = self._gen_malformed(rng)
                 c["tags"] = ["stream:malformed"]
             else:
@@ -485,20 +471,21 @@ class C16(Check):
                                       inputs={f"i{p}": pt(x) for p, x in enumerate(md["in"])},
                                       outputs={f"o{p}": pt(x) for p, x in enumerate(md["out"])},
                                       capabilities={CAP[c] for c in md["caps"]}))
-        connects, wires_ok = [], True
+        connects, ckinds, wires_ok = [], [], True
         for (sm, sp, dm, dp) in case["wires"]:
             before = list(d.wires)
             try:
                 d.connect(f"m{sm}", f"o{sp}", f"m{dm}", f"i{dp}")
                 connects.append(0)
+                ckinds.append(0)
                 wires_ok &= d.wires == before + [W.Wire(f"m{sm}", f"o{sp}", f"m{dm}", f"i{dp}")]
             except W.WiringError as e:
-                connects.append(_msg_code(str(e), CONNECT_MSG, 9))
+                connects.append(1)
+                ckinds.append(_msg_code(str(e), CONNECT_MSG, 9))
                 wires_ok &= d.wires == before
             except Exception:
                 connects.append(99)
-        for (sm, sp, dm, dp) in case.get("forced", []):
-            d.wires.append(W.Wire(f"m{sm}", f"o{sp}", f"m{dm}", f"i{dp}"))
+                ckinds.append(99)
         caps = sorted(CAP.index(c) for c in d.required_capabilities())
 
         calls, returned = [], []
@@ -522,25 +509,25 @@ class C16(Check):
                 return h
             ex.register_module(f"m{i}", mk(i, md))
         ext = {f"m{m}": {f"i{p}": mkval(v) for p, v in ps} for m, ps in case["ext"]}
-        report, code = None, 0
+        report, code, kind = None, 0, 0
         try:
             report = common.call_with_watchdog(_self_destructing(
                 lambda: ex.execute(ext if ext else None, enforce_static_checks=case["enforce"]), 1.5), 1.0)
         except W.WiringError as e:
-            code = _msg_code(str(e), EXEC_MSG, 16)
+            code, kind = 1, _msg_code(str(e), EXEC_MSG, 16)
         except HandlerBoom:
-            code = 20
+            code = kind = 20
         except common.Hang:
             raise
         except KeyError:
-            code = 30
+            code = kind = 30
         except Exception:
-            code = 40
+            code = kind = 40
 
         obs = [connects, caps, [code], [len(calls)]]
         for (i, row, _extra) in calls:
             obs.append([i] + row_obs(row))
-        trace = {"connects": connects, "wires_ok": wires_ok, "caps": caps, "code": code,
+        trace = {"connects": connects, "connect_kinds": ckinds, "wires_ok": wires_ok, "caps": caps, "code": code, "kind": kind,
                  "calls": calls, "returned": returned, "order": None, "runs": None}
         if report is not None:
             order = [int(name[1:]) for name in report.execution_order]
@@ -580,9 +567,8 @@ class C16(Check):
         cms = clist([ctuple(clist([cpt(p) for p in md["in"]]), clist([cpt(p) for p in md["out"]]),
                             clist([CAPN[c] for c in md["caps"]]), ch(md["h"])) for md in case["mods"]])
         ws = clist([ctuple(*[cnat(x) for x in w]) for w in case["wires"]])
-        forced = clist([ctuple(*[cnat(x) for x in w]) for w in case.get("forced", [])])
         ext = clist([ctuple(cnat(m), clist([ctuple(cnat(p), cval(v)) for p, v in ps])) for m, ps in case["ext"]])
-        return "(" + ctuple(cms, ws, forced, ext, cbool(case["enforce"])) + " : case)"
+        return "(" + ctuple(cms, ws, ext, cbool(case["enforce"])) + " : case)"
 
     # -- the property, on the implementation's trace ------------------------
     def monitor(self, case, obs, trace):
@@ -608,12 +594,8 @@ class C16(Check):
         # 6. required capabilities are the union over modules
         if trace["caps"] != sorted({c for md in mods for c in md["caps"]}):
             return Violation("C16/capabilities-not-union", f"required_capabilities() = {trace['caps']}")
-        if case.get("forced"):
-            # wires appended behind connect's back: not an accepted diagram, outside the property's
-            # quantifier; these cases only tie the executor's per-wire runtime checks to the model
-            return None
-        code = trace["code"]
-        wiring_error = 1 <= code <= 16
+        code, kind = trace["code"], trace["kind"]
+        wiring_error = code == 1
 
         def row_bad(m, row, extra):
             if extra or len(row) != len(mods[m]["in"]) or any(t is None for t in row):
@@ -638,7 +620,7 @@ class C16(Check):
                 if k < len(mods[m]["out"]) and v[0] == "lab" and [v[1], v[2]] != mods[m]["out"][k]:
                     if not wiring_error:
                         return Violation("C16/mislabelled-output-accepted",
-                                         f"module {m} returned {v[1:3]} on output port {k} declared {mods[m]['out'][k]} and execute ended with {ERRNAME.get(code, code)}")
+                                         f"module {m} returned {v[1:3]} on output port {k} declared {mods[m]['out'][k]} and execute ended with {ERRNAME.get(kind, kind)}")
         # 5. unschedulable diagrams raise a wiring error
         wired = {}
         for (_sm, _sp, dm, dp) in acc:
@@ -647,15 +629,15 @@ class C16(Check):
         dup = [k for k, c in wired.items() if c > 1]
         missing = [(m, p) for m in range(n) for p in range(len(mods[m]["in"])) if (m, p) not in wired and (m, p) not in given]
         nohandler = [m for m in range(n) if mods[m]["out"] and mods[m]["h"] is None]
+        raised = any(mods[m]["h"] == ["raise"] for (m, _r, _e) in trace["calls"])
         if dup or missing or nohandler:
-            if not wiring_error or trace["calls"]:
+            if not (wiring_error or (code == 20 and raised)):
                 return Violation("C16/unschedulable-not-rejected",
                                  f"duplicate sources {dup}, missing sources {missing}, missing handlers {nohandler}: execute ended with "
-                                 f"{ERRNAME.get(code, code)} after {len(trace['calls'])} handler calls")
+                                 f"{ERRNAME.get(kind, kind)} after {len(trace['calls'])} handler calls")
         if has_cycle(n, acc):
-            raised = any(mods[m]["h"] == ["raise"] for (m, _r, _e) in trace["calls"])
             if not (wiring_error or (code == 20 and raised)):
-                return Violation("C16/cycle-not-rejected", f"cyclic diagram: execute ended with {ERRNAME.get(code, code)}")
+                return Violation("C16/cycle-not-rejected", f"cyclic diagram: execute ended with {ERRNAME.get(kind, kind)}")
         # 2./4. a successful execution
         if code == 0:
             order = trace["order"]
@@ -675,12 +657,6 @@ class C16(Check):
                 for k, t in outs:
                     if k >= len(mods[m]["out"]) or t[:2] != mods[m]["out"][k]:
                         return Violation("C16/mislabelled-output-accepted", f"module {m} output {k} recorded with label {t[:2]}")
-            # every wired input holds exactly what its source produced
-            outmap = {(m, k): t for (m, _row, _e, outs) in trace["runs"] for k, t in outs}
-            rows = {m: row for (m, row, _e, _o) in trace["runs"]}
-            for (sm, sp, dm, dp) in acc:
-                if rows[dm][dp] != outmap.get((sm, sp)):
-                    return Violation("C16/wrong-value-delivered", f"wire {(sm, sp, dm, dp)} delivered {rows[dm][dp]} instead of {outmap.get((sm, sp))}")
         return None
 
     def nontrivial(self, case, obs, trace):
@@ -689,10 +665,10 @@ class C16(Check):
     def classify(self, case, obs, trace):
         ks = list(case.get("tags", [])) + [f"modules={len(case['mods'])}"]
         if "code" in trace:
-            ks.append("execute=" + ERRNAME.get(trace["code"], str(trace["code"])))
+            ks.append("execute=" + ERRNAME.get(trace["kind"], str(trace["kind"])))
             na = sum(1 for r in trace["connects"] if r == 0)
             ks.append("accepted-wires=" + (str(na) if na < 4 else "4+"))
-            for r in set(trace["connects"]):
+            for r in set(trace["connect_kinds"]):
                 ks.append("connect=" + {0: "accepted", 1: "unknown-output", 2: "unknown-input", 3: "type-mismatch", 4: "integrity"}.get(r, str(r)))
             if trace["code"] == 0 and trace["order"] != sorted(trace["order"]):
                 ks.append("order-not-index-order")
